@@ -234,6 +234,12 @@ def reply_table(ctx: Ctx, chk) -> None:
             continue
         arg = call.args[0] if call.args else None
         term = message_term(ctx, f, arg) if arg is not None else None
+        if term is None and arg is not None and not (isinstance(arg, ast.Name) and arg.id in f.params):
+            cn_ = Canon(I, f).canon(arg)
+            if " if " in cn_ or cn_.startswith(("None", "(")) or "[" in cn_:
+                # a value picked at run time (a conditional expression, an element of a table ...): which message it is
+                # is not read off this call
+                raise AnalysisError(f"REPLY-TABLE: `{norm(call)[:70]}` in {f.qualname} sends `{cn_[:70]}` - not a Message construction visible at the call ({loc})")
         if term is None:
             chk.refute(rule, key, f"`{norm(call)[:80]}` sends something that is not a locally constructed Message: not one of the specified reactions", loc)
             continue
